@@ -6,10 +6,12 @@ Open Scope Z_scope.
 
 (* For ANY sequence of actions -- creating iterchunks generators with any parameters,
    advancing, closing or abandoning them in any order, entering and leaving open_array()
-   contexts, reading and writing elements -- of any length, with any number of generators
-   and contexts: no step touches a closed memory map (OCrash never occurs), and the
-   protocol invariant (the cached map exists exactly while it has users, is the only open
-   one, and is the map every user holds) is maintained. *)
+   contexts, reading and writing elements, and changing the length of the array (append /
+   truncate, also inside contexts) -- of any length, with any number of generators and
+   contexts: no step touches a closed memory map (OCrash never occurs), and the protocol
+   invariant (exact user count; every active generator's map is open; the cached map exists
+   only while it has users; every open map is the cached one or still held by a generator)
+   is maintained. *)
 Theorem C19_safe : forall acts n k,
   SInv (snd (sched_run (sched_init n k) acts)) /\ ~ In OCrash (fst (sched_run (sched_init n k) acts)).
 Proof. intros acts n k. apply sched_run_safe. apply sinv_init. Qed.
@@ -27,16 +29,9 @@ Theorem C19_chunk_is_current : forall s g m a b rest,
   SInv s -> nth_error (sc_gens s) g = Some (GActive m ((a, b) :: rest)) ->
   fst (sched_step s (AAdvance g)) = OChunk a b (chunk_obs (sc_data s) a b).
 Proof.
-  intros s g m a b rest [Hu Hc] En. cbn [sched_step]. rewrite En. unfold advance_active.
-  destruct (sc_cache s) as [m0|] eqn:Ecache.
-  - destruct Hc as (_ & Hop & Hg & _). rewrite Forall_forall in Hg. pose proof (Hg _ (nth_error_In _ _ En)) as Hm.
-    cbn in Hm. subst m0. rewrite Hop. cbn. rewrite Nat.eqb_refl. reflexivity.
-  - exfalso. destruct Hc as (H0 & _).
-    assert ((0 < count_active (sc_gens s))%nat).
-    { clear - En. revert g En. induction (sc_gens s) as [|y l IH]; intros g En; destruct g; cbn in *; try discriminate.
-      - inversion En; subst. cbn. auto with arith.
-      - specialize (IH _ En). destruct (active y); auto with arith. }
-    rewrite H0 in Hu. destruct (count_active (sc_gens s)); [inversion H|discriminate].
+  intros s g m a b rest (Hu & Hg & Hc & Hl) En. cbn [sched_step]. rewrite En. unfold advance_active.
+  rewrite Forall_forall in Hg. pose proof (Hg _ (nth_error_In _ _ En)) as Hm. cbn in Hm.
+  rewrite (mem_in _ _ Hm). reflexivity.
 Qed.
 Print Assumptions C19_chunk_is_current.
 
@@ -50,3 +45,14 @@ Example C19_regression :
      OChunk 3 6 [3;4;5]; ONothing; OChunk 6 9 [6;99;8]; OChunk 9 10 [9;9;9]; OStop] /\
   sc_open (snd (sched_run (sched_init 10 2) acts)) = [].
 Proof. vm_compute. split; reflexivity. Qed.
+
+(* the length changes inside a context while a generator is active: the generator keeps its
+   (old) map until it finishes, reads go through the renewed map, and in the end nothing is open *)
+Example C19_resize :
+  let acts := [AEnter; AStart 4 None None None true; AAdvance 0; AResize 12; ARead 3; AWrite 11 5; AAdvance 0;
+               ARead 11; AExit; AAdvance 0; AAdvance 0] in
+  fst (sched_run (sched_init 10 1) acts) =
+    [ONothing; ONothing; OChunk 0 4 [0;2;3]; ONothing; OValue 3; ONothing; OChunk 4 8 [4;6;7]; OValue 5; ONothing;
+     OChunk 8 10 [8;9;9]; OStop] /\
+  sc_open (snd (sched_run (sched_init 10 1) acts)) = [] /\ sc_len (snd (sched_run (sched_init 10 1) acts)) = 12.
+Proof. vm_compute. repeat split; reflexivity. Qed.
